@@ -84,6 +84,14 @@ impl ShmWriter {
             // Note that wiping the file sets the version to 0, which is used to indicate the
             // readers that the memory segment is not usable yet.
             ShmWriter::wipe(path, segsize)?
+        } else if fs::metadata(path)?.len() < segsize as u64 {
+            // The header is valid but the file is shorter than the segment it describes (e.g. it
+            // was truncated). Stores to the mapping past the end of the file would not be backed by
+            // the file: grow it in place, keeping the header and whatever the readers have mapped.
+            fs::OpenOptions::new()
+                .write(true)
+                .open(path)?
+                .set_len(segsize as u64)?;
         }
 
         #[cfg(clock_bound_verif)]
